@@ -268,6 +268,20 @@ int read_elf(
   //printf("e_shnum=%d\n", e_shnum);
   //printf("e_shstrndx=%d\n", e_shstrndx);
 
+  // A section header table that does not fit in the file means the file
+  // is truncated or not what it claims to be.
+  const uint64_t file_length = file.get_file_length();
+  const uint64_t shdr_size = (is_32_bit == 1) ? 40 : 64;
+
+  if ((uint64_t)e_shentsize < shdr_size ||
+      e_shstrndx >= e_shnum ||
+      e_shoff > file_length ||
+      (uint64_t)e_shnum * e_shentsize > file_length - e_shoff)
+  {
+    printf("Error: ELF section header table is outside of the file.\n");
+    return -1;
+  }
+
   uint64_t stroffset;
 
   if (is_32_bit == 1)
@@ -355,6 +369,13 @@ int read_elf(
         {
           end = elf_shdr.sh_addr + elf_shdr.sh_size - 1;
         }
+      }
+
+      if (elf_shdr.sh_offset > file_length ||
+          elf_shdr.sh_size > file_length - elf_shdr.sh_offset)
+      {
+        printf("Error: ELF section %s is outside of the file.\n", name);
+        return -1;
       }
 
       long marker = file.tell();
